@@ -29,6 +29,9 @@ TARGET = os.path.join(VERIF, "target")
 ENV = dict(os.environ, CARGO_NET_OFFLINE="true", CARGO_TERM_COLOR="never")
 
 
+MEMCHECK_OPS = 6000
+
+
 def _run(cmd, env=None, timeout=None, stdin=None):
     try:
         p = subprocess.run(cmd, env=env or ENV, stdout=subprocess.PIPE, stderr=subprocess.PIPE, text=True, timeout=timeout, input=stdin)
@@ -100,6 +103,7 @@ def miri(seed, repo, log):
         return _run(base + ["miniwork", str(ops), str(seed * 1000 + k)], env=env, timeout=3000)
 
     vios = []
+    failed = []
     done = 0
     with cf.ThreadPoolExecutor(16) as ex:
         for k, (rc, so, se) in enumerate(ex.map(one, range(16))):
@@ -107,12 +111,21 @@ def miri(seed, repo, log):
                 done += 1
             elif rc is None:
                 pass  # timeout: inconclusive, not a violation
-            else:
-                what = "Undefined Behavior" if "Undefined Behavior" in se else ("data race" if "Data race" in se else "problem")
+            elif "Undefined Behavior" in se or "Data race" in se or "error: memory leaked" in se:
+                what = "Undefined Behavior" if "Undefined Behavior" in se else ("data race" if "Data race" in se else "memory leak")
                 m = re.search(r"error: (Undefined Behavior[^\n]*)\n(?:[^\n]*\n){0,3}?\s*--> ([^\n]*)", se)
-                head = ("%s at %s" % (m.group(1), m.group(2))) if m else (se[-800:] or so[-800:])
-                vios.append(_violation("C01/miri-report/%s" % what.replace(" ", "-"), "Miri (seed %d): %s" % (k, head), None))
-    return {"status": "ran", "processes": 16, "completed": done, "ops_per_process": ops, "decodes_per_op": 31, "wall_s": round(time.time() - t0, 1)}, vios
+                head = ("%s at %s" % (m.group(1), m.group(2))) if m else se[-800:]
+                vios.append(_violation("C01/miri-report/%s" % what.replace(" ", "-"), "Miri (process %d): %s" % (k, head), None))
+            elif rc == 1 and "PROBLEM" in so:
+                # the workload's own oracles (panic in decode / follow-up, fixed point) fired under Miri
+                probs = re.findall(r"PROBLEM (.*)", so)
+                vios.append(_violation("C01/miri-run/problem", "the miniwork oracles reported under Miri (process %d): %s" % (k, probs[0][:600]), None))
+            else:
+                failed.append("process %d: exit %s: %s" % (k, rc, se[-300:]))  # tool trouble: inconclusive, never a verdict
+    info = {"status": "ran", "processes": 16, "completed": done, "ops_per_process": ops, "decodes_per_op": 31, "wall_s": round(time.time() - t0, 1)}
+    if failed:
+        info["inconclusive_processes"] = failed
+    return info, vios
 
 
 def _memcheck_headline(se):
@@ -131,7 +144,7 @@ def memcheck(build, seed, log):
         return {"status": "unavailable"}, []
     vios = []
     t0 = time.time()
-    jobs = [[binp, "miniwork", "400", str(seed * 100 + k)] for k in range(16)]
+    jobs = [[binp, "miniwork", str(MEMCHECK_OPS), str(seed * 100 + k)] for k in range(16)]
     # plus bombs through the one-shot child protocol
     bombs = "\n".join(["A 8440a0f640", "A a10781834 0a040".replace(" ", ""), "A " + "81" * 300 + "01", "A " + "a107834 0".replace(" ", "") * 1, "A a10ac25f4101ff", "A f97e00", "A a104f93c00"]) + "\n"
 
@@ -149,7 +162,7 @@ def memcheck(build, seed, log):
     rc, so, se = _run(["valgrind", "-q", "--error-exitcode=9", "--leak-check=full", "--errors-for-leak-kinds=definite,indirect", binp, "oneshot", "--stack", str(8 << 20)], stdin=bombs, timeout=3000)
     if rc == 9:
         vios.append(_violation("C01/memcheck-report", "valgrind memcheck on the one-shot child: " + _memcheck_headline(se), None))
-    return {"status": "ran", "miniwork_processes": runs, "ops_per_process": 400, "oneshot_inputs": bombs.count("\n"), "wall_s": round(time.time() - t0, 1)}, vios
+    return {"status": "ran", "miniwork_processes": runs, "ops_per_process": MEMCHECK_OPS, "oneshot_inputs": bombs.count("\n"), "wall_s": round(time.time() - t0, 1)}, vios
 
 
 def _ir(binp, ti, hexs, tmpdir, k):
